@@ -29,6 +29,18 @@ func errText(err error) (s string) {
 	return err.Error()
 }
 
+// scaleUpDisturbed reports whether an injected failure of this group's segment hit a call the
+// scale-up path depends on (anything but node removal calls); a refused termination or a
+// failed node deletion earlier in the scan leaves the untaint / remainder arithmetic well defined.
+func scaleUpDisturbed(rec *ScanRecord, gr *GroupRec) bool {
+	for _, e := range append(append([]sim.Entry{}, rec.Prelude...), gr.Seg...) {
+		if e.Injected && e.Kind != sim.ATerminateInASG && e.Kind != sim.KDelete {
+			return true
+		}
+	}
+	return len(gr.Failed) > 0
+}
+
 // notInGroupHit reports whether some DeleteNodes call of the scan answered not-in-group.
 func notInGroupHit(rec *ScanRecord) bool {
 	for _, gr := range rec.Groups {
@@ -493,7 +505,7 @@ func (w *World) M04(rec *ScanRecord) []Violation {
 		}
 		// clamp lands exactly on the bound
 		ex := w.Expectation(rec, gr)
-		if rec.Faulty() || len(gr.Failed) > 0 {
+		if scaleUpDisturbed(rec, gr) {
 			continue
 		}
 		var lower int64 = -1 // lower bound of the unclamped remainder
@@ -550,7 +562,7 @@ func (w *World) M05(rec *ScanRecord) []Violation {
 	var out []Violation
 	for _, gr := range rec.Groups {
 		ex := w.Expectation(rec, gr)
-		if ex.Kind != "band" || rec.Faulty() || len(gr.Failed) > 0 || ex.Need < 0 {
+		if ex.Kind != "band" || scaleUpDisturbed(rec, gr) || ex.Need < 0 {
 			continue
 		}
 		if ex.Bands != [4]bool{false, false, false, true} {
@@ -711,7 +723,7 @@ func (w *World) M07(rec *ScanRecord) []Violation {
 	next:
 		// (iii) exact remainder when N is known exactly
 		ex := w.Expectation(rec, gr)
-		if rec.Faulty() || len(gr.Failed) > 0 {
+		if scaleUpDisturbed(rec, gr) {
 			continue
 		}
 		K, R, nreq, cloudFailed := brought(gr)
